@@ -26,7 +26,6 @@ static int verif_strcmp3(const char *a, const char *b) {
 // kernels under test; weak references let the replay link without the other translation units
 #pragma weak add_type
 #pragma weak align_to
-#pragma weak array_of
 #pragma weak consume
 #pragma weak copy_type
 #pragma weak enum_type
@@ -206,8 +205,10 @@ void h_scan_globals(void) {
     go[i]->offset = i;                      // (unused for globals) carries the position in the input
     // type: `int x[4]` or, for declarations without initializer, possibly the incomplete `int x[]` (size < 0)
     __CPROVER_assume(IN.incomplete[i] <= 1 && (IN.kind[i] != K_DEFINITION || !IN.incomplete[i]));
+    static Type T_elem = {.kind = TY_INT, .size = 4, .align = 4};
     go[i]->ty = calloc(1, sizeof(Type));
     go[i]->ty->kind = TY_ARRAY; go[i]->ty->size = IN.incomplete[i] ? -4 : 16; go[i]->ty->array_len = IN.incomplete[i] ? -1 : 4;
+    go[i]->ty->base = &T_elem; go[i]->ty->align = 4;
     if (i > 0 && i < n) go[i - 1]->next = go[i];
     if (i < n && IN.kind[i] == K_DEFINITION) ndef[IN.name[i]]++;
     if (i < n && IN.kind[i] == K_TENTATIVE) ntent[IN.name[i]]++;
@@ -245,7 +246,8 @@ void h_scan_globals(void) {
     bool some_complete = false;
     for (int i = 0; i < 4; i++)
       if (i < n && IN.kind[i] == K_TENTATIVE && IN.name[i] == IN.name[v->offset] && !IN.incomplete[i]) some_complete = true;
-    if (some_complete) VASSERT(v->ty->size >= 0, "of several tentative definitions the one with the complete array type is kept");
+    if (some_complete) VASSERT(v->ty->size == 16, "of several tentative definitions the one with the complete array type is kept");
+    else VASSERT(v->ty->kind == TY_ARRAY && v->ty->array_len == 1 && v->ty->size == 4, "an array still incomplete at the end of the unit has one element (6.9.2p5)");
   }
   VCOVER();
 }
